@@ -512,8 +512,17 @@ pub fn names_eq_exact(a: &[Label], b: &[Label]) -> bool {
 }
 
 /// ASCII case-insensitive comparison, label by label.
+/// Letter case is disregarded the way the crate (and the statements) disregard it: for every letter, not only
+/// for ASCII ones. Labels that are not UTF-8 compare byte by byte, ASCII letters aside.
 pub fn names_eq_nocase(a: &[Label], b: &[Label]) -> bool {
-    a.len() == b.len() && a.iter().zip(b).all(|(x, y)| x.eq_ignore_ascii_case(y))
+    a.len() == b.len()
+        && a.iter().zip(b).all(|(x, y)| {
+            x.eq_ignore_ascii_case(y)
+                || match (std::str::from_utf8(x), std::str::from_utf8(y)) {
+                    (Ok(sx), Ok(sy)) => !x.is_ascii() && !y.is_ascii() && sx.to_lowercase() == sy.to_lowercase(),
+                    _ => false,
+                }
+        })
 }
 
 pub fn lower(n: &Name) -> Name {
